@@ -277,9 +277,25 @@ def classify_failure(res):
         return ("internal", cause_of(body))
     if MISMATCH in text:
         return ("internal", "STACK MISMATCH")
-    if "Did not compile successfully" in text:
+    if has_compile_diagnostics(text):
         return ("compile", "")
     return ("internal", text.strip()[-300:])
+
+
+_DIAG_POS = re.compile(r"[^\s:]+\.ms:\d+:\d+")
+
+
+def has_compile_diagnostics(text):
+    """The compiler reported an error: its summary line (pinned wording) or, independent of that wording, a
+    diagnostic header naming `<file>.ms:<line>:<col>`."""
+    return "Did not compile successfully" in text or bool(_DIAG_POS.search(text))
+
+
+def compile_rejected(r):
+    """The CLI refused the program at compile time: exit status 1 (no panic, no signal), no run-time error report,
+    and diagnostics (see has_compile_diagnostics).  The wording of the summary line is incidental."""
+    text = (r.out or "") + (r.err or "")
+    return r.cls == "fail" and BANNER not in text and MISMATCH not in text and has_compile_diagnostics(text)
 
 
 def first_line_with(text, needle):
